@@ -20,7 +20,9 @@ RULE = (
     "invocations on ONE shared object are interleaved at source-line granularity under ALL schedules with <= k "
     "preemptions (baton scheduler), with a deliberately racy kernel as positive control; shared-state hashes of the "
     "kernel object, the cloud object and the module globals before/after. A state is (scheduler state reached by a "
-    "choice prefix); distinct = distinct complete schedules; outcomes = distinct observed results per configuration."
+    "choice prefix); distinct = distinct complete schedules; outcomes = distinct observed results per configuration. Real-kernel batches are also run on a balloon-altitude "
+    "kernel and on a kernel re-configured after construction (the process scheduler ships a pickled copy), and two events "
+    "in different partitions sit either side of a cloud-map node with very different cloud tops."
 )
 ASSUMPTIONS = [
     "completion order is owned at the level dask's scheduler loop can observe it; pre-emption inside one numpy C call and real OS scheduling are covered only by the un-controlled conformance runs (one schedule each)",
